@@ -1,1 +1,125 @@
-(* Props/C07.v -- stub, to be filled in *)
+(* Props/C07.v -- property theorems only: Theorem / exact lemma / Check (pins the statement) / Print Assumptions.
+
+   C07: sparse products equal dense products; transpose is the adjoint; scaling scales every product.
+   All theorems are about the Gallina model Model/Sparse.v of src/sparse.rs (tied to the code by the
+   correspondence check of driver/c07.py), over ANY arithmetic satisfying the ring laws, for every
+   well-formed compressed-column matrix of any shape and any values (no size bound).
+
+   [sp_entry s i j] is the (i,j) entry of the matrix the storage denotes: the sum of the values of
+   column segment j whose row index is i.  Difference from DESIGN Appendix E: the pinned statements
+   there use [to_dense s] on the right-hand side; that is false for storage holding one position
+   twice (multiply sums duplicates, to_dense keeps the last), so the theorems are stated against
+   [sp_entry], which is what the loops compute for every well-formed storage, duplicates included;
+   [to_dense_entry] (below, under NoDupKeys) identifies [sp_entry] with the entries of [sp_to_dense]. *)
+From Coq Require Import List Arith ZArith QArith Qcanon Lia.
+From OV Require Import Base.Panic Base.Arith Base.Flat Model.Vector Model.Matrix Model.Sparse Inst.QcInst
+                       Proofs.SparseBase Proofs.SparseMul Proofs.SparseWf Proofs.SparseHist
+                       Proofs.SparseViews Proofs.SparseRefine Proofs.SparseTranspose Proofs.SparseFinal.
+Import ListNotations.
+Local Open Scope nat_scope.
+
+Theorem sp_mul_spec : forall (A : Arith), RingLaws A -> forall (s : sparse A) (x : list A),
+  wfS s -> length x = sp_cols s ->
+  sp_mul s x = Ok (dmulv (sp_entry s) (sp_rows s) (sp_cols s) x).
+Proof. intros A RL s x. exact (sp_mul_spec_lemma RL s x). Qed.
+Check sp_mul_spec : forall (A : Arith), RingLaws A -> forall (s : sparse A) (x : list A),
+  wfS s -> length x = sp_cols s ->
+  sp_mul s x = Ok (dmulv (sp_entry s) (sp_rows s) (sp_cols s) x).
+Print Assumptions sp_mul_spec.
+
+Theorem sp_tmul_spec : forall (A : Arith), RingLaws A -> forall (s : sparse A) (y : list A),
+  wfS s -> length y = sp_rows s ->
+  sp_tmul s y = Ok (dtmulv (sp_entry s) (sp_rows s) (sp_cols s) y).
+Proof. intros A RL s y. exact (sp_tmul_spec_lemma RL s y). Qed.
+Check sp_tmul_spec : forall (A : Arith), RingLaws A -> forall (s : sparse A) (y : list A),
+  wfS s -> length y = sp_rows s ->
+  sp_tmul s y = Ok (dtmulv (sp_entry s) (sp_rows s) (sp_cols s) y).
+Print Assumptions sp_tmul_spec.
+
+(* <y, A x> = <A^T y, x> *)
+Theorem sp_adjoint : forall (A : Arith), RingLaws A -> forall (s : sparse A) (x y : list A),
+  wfS s -> length x = sp_cols s -> length y = sp_rows s ->
+  exists u w d, sp_mul s x = Ok u /\ sp_tmul s y = Ok w /\ dot y u = Ok d /\ dot w x = Ok d.
+Proof. intros A RL s x y. exact (sp_adjoint_lemma RL s x y). Qed.
+Check sp_adjoint : forall (A : Arith), RingLaws A -> forall (s : sparse A) (x y : list A),
+  wfS s -> length x = sp_cols s -> length y = sp_rows s ->
+  exists u w d, sp_mul s x = Ok u /\ sp_tmul s y = Ok w /\ dot y u = Ok d /\ dot w x = Ok d.
+Print Assumptions sp_adjoint.
+
+(* (scale a A) x = (A x) * a *)
+Theorem sp_scale_mul : forall (A : Arith), RingLaws A -> forall (s : sparse A) (a : A) (x : list A),
+  wfS s -> length x = sp_cols s ->
+  exists s' u, sp_scale s a = Ok s' /\ wfS s' /\ sp_mul s x = Ok u /\ sp_mul s' x = Ok (vscale u a).
+Proof. intros A RL s a x. exact (sp_scale_mul_lemma RL s a x). Qed.
+Check sp_scale_mul : forall (A : Arith), RingLaws A -> forall (s : sparse A) (a : A) (x : list A),
+  wfS s -> length x = sp_cols s ->
+  exists s' u, sp_scale s a = Ok s' /\ wfS s' /\ sp_mul s x = Ok u /\ sp_mul s' x = Ok (vscale u a).
+Print Assumptions sp_scale_mul.
+
+(* P2: multiplying by the explicit transpose equals the transposed product *)
+Theorem sp_transpose_mul : forall (A : Arith), RingLaws A -> forall (s : sparse A) (y : list A),
+  wfS s -> length y = sp_rows s ->
+  exists s' w, sp_transpose s = Ok s' /\ sp_mul s' y = Ok w /\ sp_tmul s y = Ok w.
+Proof. intros A RL s y. exact (sp_transpose_mul_lemma RL s y). Qed.
+Check sp_transpose_mul : forall (A : Arith), RingLaws A -> forall (s : sparse A) (y : list A),
+  wfS s -> length y = sp_rows s ->
+  exists s' w, sp_transpose s = Ok s' /\ sp_mul s' y = Ok w /\ sp_tmul s y = Ok w.
+Print Assumptions sp_transpose_mul.
+
+(* the matrix the products are stated against is the dense conversion: for storage with no position
+   stored twice, entry (i,j) of to_dense (read through the modelled dense index) is sp_entry s i j *)
+Theorem to_dense_entry : forall (A : Arith), RingLaws A -> forall (s : sparse A), wfS s -> NoDupKeys s ->
+  exists D, sp_to_dense s = Ok D /\ rows D = sp_rows s /\ cols D = sp_cols s /\
+    forall i j, i < sp_rows s -> j < sp_cols s -> mget D i j = Ok (sp_entry s i j).
+Proof. intros A RL s. exact (to_dense_entry_lemma RL s). Qed.
+Check to_dense_entry : forall (A : Arith), RingLaws A -> forall (s : sparse A), wfS s -> NoDupKeys s ->
+  exists D, sp_to_dense s = Ok D /\ rows D = sp_rows s /\ cols D = sp_cols s /\
+    forall i j, i < sp_rows s -> j < sp_cols s -> mget D i j = Ok (sp_entry s i j).
+Print Assumptions to_dense_entry.
+
+(* ---- non-vacuity: the hypotheses hold for a concrete non-trivial input at the exact instance ----
+   a 3x4 matrix with an empty column, a column holding two entries out of row order, and a vector
+   that is not all-ones. *)
+Definition ex_s : sparse AQ :=
+  @mkS AQ 3 4 4 [q 2 1; q (-1) 2; q 7 1; q 5 3] [2; 0; 1; 2] [0; 0; 2; 3; 4].
+Definition ex_x : list AQ := [q 1 1; q 2 1; q (-3) 1; q 1 2].
+Definition ex_y : list AQ := [q 4 1; q (-1) 1; q 2 1].
+
+Example AQ_RingLaws : RingLaws AQ.
+Proof. constructor. exact Qcrt. Qed.
+
+Example ex_s_wf : wfS ex_s.
+Proof.
+  unfold wfS, ex_s; cbn [sp_rows sp_cols sp_nonzero sp_val sp_row_index sp_col_start length nth Nat.add].
+  repeat split; try reflexivity.
+  - intros j Hj. do 4 (destruct j as [|j]; [cbn [nth Nat.add]; lia|]). lia.
+  - intros k Hk. do 4 (destruct k as [|k]; [cbn [nth]; lia|]). lia.
+Qed.
+
+Example sp_mul_spec_nonvacuous : wfS ex_s /\ length ex_x = sp_cols ex_s /\
+  fl_res (fl_list flat_q) (sp_mul ex_s ex_x) = [0; 3;  2; -1; 1;  2; -21; 1;  2; 29; 6]%Z.   (* [-1; -21; 29/6] *)
+Proof. split; [exact ex_s_wf|]. split; [reflexivity|]. vm_compute. reflexivity. Qed.
+
+Example sp_tmul_spec_nonvacuous : wfS ex_s /\ length ex_y = sp_rows ex_s /\
+  fl_res (fl_list flat_q) (sp_tmul ex_s ex_y) = [0; 4;  2; 0; 1;  2; 2; 1;  2; -7; 1;  2; 10; 3]%Z.   (* [0; 2; -7; 10/3] *)
+Proof. split; [exact ex_s_wf|]. split; [reflexivity|]. vm_compute. reflexivity. Qed.
+
+Example sp_adjoint_nonvacuous : wfS ex_s /\ length ex_x = sp_cols ex_s /\ length ex_y = sp_rows ex_s.
+Proof. split; [exact ex_s_wf|]. split; reflexivity. Qed.
+
+Example sp_scale_mul_nonvacuous : wfS ex_s /\ length ex_x = sp_cols ex_s.
+Proof. split; [exact ex_s_wf|]. reflexivity. Qed.
+
+Example sp_transpose_mul_nonvacuous : wfS ex_s /\ length ex_y = sp_rows ex_s /\
+  fl_res (fl_list flat_q) (let* t := sp_transpose ex_s in sp_mul t ex_y) = [0; 4;  2; 0; 1;  2; 2; 1;  2; -7; 1;  2; 10; 3]%Z.
+Proof. split; [exact ex_s_wf|]. split; [reflexivity|]. vm_compute. reflexivity. Qed.
+
+Example ex_s_nodup : NoDupKeys ex_s.
+Proof.
+  unfold NoDupKeys, ents, visits, seg, ent, ex_s, trow, tcol.
+  cbn [sp_rows sp_cols sp_nonzero sp_val sp_row_index sp_col_start seq flat_map map nth Nat.add Nat.sub app fst snd].
+  repeat constructor; cbn [In]; intros H; repeat (destruct H as [H|H]; [discriminate H|]); destruct H.
+Qed.
+
+Example to_dense_entry_nonvacuous : wfS ex_s /\ NoDupKeys ex_s.
+Proof. split; [exact ex_s_wf|exact ex_s_nodup]. Qed.
